@@ -45,3 +45,13 @@ Definition src_item (i : SItem) : GoSrc.SourceDescriptionItem := GoSrc.mkSourceD
 Definition src_chunk (c : SChunk) : GoSrc.SourceDescriptionChunk :=
   GoSrc.mkSourceDescriptionChunk (Z.of_N (ch_src c)) (map src_item (ch_items c)).
 Definition src_sdes (s : SDES) : GoSrc.SourceDescription := GoSrc.mkSourceDescription (map src_chunk (sd_chunks s)).
+
+(* transport-wide congestion control: the interface PacketStatusChunk is the closed sum GoSrc.PacketStatusChunk *)
+Definition src_tchunk (c : TChunk) : GoSrc.PacketStatusChunk :=
+  match c with
+  | RLC _ _ _ => GoSrc.PacketStatusChunk_RunLengthChunk (src_rlc c)
+  | SVC _ _ _ => GoSrc.PacketStatusChunk_StatusVectorChunk (src_svc c)
+  end.
+Definition src_twcc (t : TWCC) : GoSrc.TransportLayerCC :=
+  GoSrc.mkTransportLayerCC (src_header (tw_hdr t)) (Z.of_N (tw_sender t)) (Z.of_N (tw_media t)) (Z.of_N (tw_base t))
+    (Z.of_N (tw_count t)) (Z.of_N (tw_reftime t)) (Z.of_N (tw_fb t)) (map src_tchunk (tw_chunks t)) (map src_delta (tw_deltas t)).
